@@ -23,7 +23,7 @@ Definition check_get_paths_pure (decos params reads writes other free scope : li
   && Nat.eqb (List.length params) 2
   && subset_s reads ["current_directory"; "user"; "user.base_path"]
   && nil_b writes && nil_b other
-  && subset_s free ["pathlib"]
+  && subset_s free ["pathlib"; "logger"]
   && nil_b scope.
 
 Definition transfer_workers : list string := ["list_worker"; "mlsd_worker"; "retr_worker"; "stor_worker"].
